@@ -415,16 +415,17 @@ void DiscoveryAgent::SplitAroundBadUID(UID bad_uid) {
   }
 
   OLA_INFO << "Bad UID, attempting split either side of: " << bad_uid;
-  UID mid_minus_one_uid(bad_uid.ToUInt64() - 1);
-  UID mid_plus_one_uid(bad_uid.ToUInt64() + 1);
-
   range->uids_discovered = 0;
-  if (mid_minus_one_uid >= lower_uid) {
+  // Compare before the +/- 1: the UID arithmetic wraps at 0000:00000000 and
+  // ffff:ffffffff, which would make the child range span the whole UID space.
+  if (bad_uid > lower_uid) {
+    UID mid_minus_one_uid(bad_uid.ToUInt64() - 1);
     OLA_INFO << "Splitting either side of " << bad_uid << ", adding "
              << lower_uid << " - " << mid_minus_one_uid;
     m_uid_ranges.push(new UIDRange(lower_uid, mid_minus_one_uid, range));
   }
-  if (mid_plus_one_uid <= upper_uid) {
+  if (bad_uid < upper_uid) {
+    UID mid_plus_one_uid(bad_uid.ToUInt64() + 1);
     OLA_INFO << "Splitting either side of " << bad_uid << ", adding "
              << mid_plus_one_uid << " - " << upper_uid;
     m_uid_ranges.push(new UIDRange(mid_plus_one_uid, upper_uid, range));
